@@ -115,7 +115,7 @@ inductive WritesBinds : List Enc → List VarBind → Prop where
 def WritesPdu (e : Enc) (cls : String) (p : PduResp) : Prop :=
   ∃ f t fl tl erid ees eei items, e = .pdu f t [erid, ees, eei, .cons fl tl items] ∧
     f.ok (Enc.bytesL [erid, ees, eei, .cons fl tl items]).length ∧ t ≠ 255 ∧
-    (lookup t).kind = "pdu" ∧ (lookup t).name = cls ∧
+    (lookup t).kind = "pdu" ∧ (lookup t).name = cls ∧ Gen.noDefaultCtor.contains cls = false ∧
     fl.ok (Enc.bytesL items).length ∧ tl ≠ 255 ∧ (lookup tl).kind = "seq" ∧ (lookup tl).name = "Sequence" ∧
     WritesVal erid (.int p.requestId) ∧ WritesVal ees (.int p.errorStatus) ∧ WritesVal eei (.int p.errorIndex) ∧
     WritesBinds items p.varbinds
@@ -132,7 +132,7 @@ theorem writesVal_read {e : Enc} {v : Val} (h : WritesVal e v) :
     e.WF ∧ ∃ tr, e.tree = .ok tr ∧ valOfTree tr = some v := by
   obtain ⟨f, t, c, rfl, hf, hspec, hdom⟩ := h
   obtain ⟨tr, h1, h2, h3, h4, h5⟩ := leaf_val t c v hspec hdom
-  exact ⟨by simp only [Enc.WF]; exact ⟨hf, h3, h4, h5⟩, tr, by simpa [Enc.tree] using h1, h2⟩
+  exact ⟨by simp only [Enc.WF]; exact ⟨hf, ⟨h3, ctor_of_not_pdu t h5⟩, h4, h5⟩, tr, by simpa [Enc.tree] using h1, h2⟩
 
 theorem valOfTree_int {tr : Tree} {v : Int} (h : valOfTree tr = some (.int v)) : tr = .int "Integer" v := by
   unfold valOfTree at h
@@ -165,7 +165,7 @@ theorem writesBind_read {e : Enc} {vb : VarBind} (h : WritesBind e vb) :
   have := valOfTree_oid hvo
   subst this
   refine ⟨?_, trivial, .seq (lookup t).name [.oid vb.1, trv], ?_, ?_⟩
-  · simp only [Enc.WF, Enc.WFL]; exact ⟨hf, ht, hk, wo, wv, trivial⟩
+  · simp only [Enc.WF, Enc.WFL]; exact ⟨hf, ⟨ht, ctor_of_not_pdu t (by rw [hk]; decide)⟩, hk, wo, wv, trivial⟩
   · simp [Enc.tree, Enc.treeL, hto, htv, bind, Except.bind, pure, Except.pure]
   · simp [bindOfTree, hvv]
 
@@ -185,7 +185,7 @@ theorem writesBinds_read : ∀ {es : List Enc} {vbs : List VarBind}, WritesBinds
 
 theorem writesPdu_read {e : Enc} {cls : String} {p : PduResp} (h : WritesPdu e cls p) :
     e.WF ∧ ∃ tr, e.tree = .ok tr ∧ pduOfTree tr = some (cls, p) := by
-  obtain ⟨f, t, fl, tl, erid, ees, eei, items, rfl, hf, ht, hk, hn, hfl, htl, hkl, hnl, h1, h2, h3, hb⟩ := h
+  obtain ⟨f, t, fl, tl, erid, ees, eei, items, rfl, hf, ht, hk, hn, hctor, hfl, htl, hkl, hnl, h1, h2, h3, hb⟩ := h
   obtain ⟨w1, t1, e1, v1⟩ := writesVal_read h1
   obtain ⟨w2, t2, e2, v2⟩ := writesVal_read h2
   obtain ⟨w3, t3, e3, v3⟩ := writesVal_read h3
@@ -196,7 +196,7 @@ theorem writesPdu_read {e : Enc} {cls : String} {p : PduResp} (h : WritesPdu e c
   refine ⟨?_, .seq (lookup t).name [.int "Integer" p.requestId, .int "Integer" p.errorStatus, .int "Integer" p.errorIndex,
     .seq (lookup tl).name trs], ?_, ?_⟩
   · simp only [Enc.WF, Enc.WFL, pduShape, Enc.isBindList]
-    exact ⟨hf, ht, hk, ⟨w1, w2, w3, ⟨hfl, htl, hkl, wb⟩, trivial⟩,
+    exact ⟨hf, ⟨ht, by rw [hn]; exact hctor⟩, hk, ⟨w1, w2, w3, ⟨hfl, ⟨htl, ctor_of_not_pdu tl (by rw [hkl]; decide)⟩, hkl, wb⟩, trivial⟩,
       writesVal_int_shape h1, writesVal_int_shape h2, writesVal_int_shape h3, hnl, pb⟩
   · simp [Enc.tree, Enc.treeL, e1, e2, e3, hts, bind, Except.bind, pure, Except.pure]
   · simp [pduOfTree, hbs, hn]
@@ -211,7 +211,7 @@ theorem writesMsg_read {e : Enc} {m : RespMsg} {cls : String} (h : WritesMsg e m
   have := valOfTree_int v1; subst this
   have := valOfTree_str v2; subst this
   refine ⟨?_, .seq (lookup t).name [.int "Integer" m.version, .str "OctetString" m.community, t3], ?_, ?_⟩
-  · simp only [Enc.WF, Enc.WFL]; exact ⟨hf, ht, hk, w1, w2, w3, trivial⟩
+  · simp only [Enc.WF, Enc.WFL]; exact ⟨hf, ⟨ht, ctor_of_not_pdu t (by rw [hk]; decide)⟩, hk, w1, w2, w3, trivial⟩
   · simp [Enc.tree, Enc.treeL, e1, e2, e3, bind, Except.bind, pure, Except.pure]
   · simp [msgOfTree, v3]
 
